@@ -64,3 +64,49 @@ Definition period_ok : bool :=
   forallb (fun name => forallb (fun k =>
      match rot_mat name k, rot_mat name (k + 16)%Z with Some u, Some v => mat_prop u v | _, _ => false end)
      [(-4)%Z; 0%Z; 4%Z; 8%Z]) ["RX"; "RY"; "RZ"; "PHASE"].
+
+(* ---- the selection around the table (decompose_gate_to_cliffords, angles on the pi/8 grid) ----
+   is_clifford:  k mod step = 0                       (Gate.is_clifford: parameter % (pi/2) close to 0)
+   k = 0         -> []                                 (isclose(parameter, 0))
+   otherwise     the first value v of `values` with  k mod period = v mod period ; none -> refused ;
+                 the row (name, v) of the table, [] when the table has no such row (default gate_list). *)
+Definition select_value (values : list Z) (period k : Z) : option Z :=
+  find (fun v => Z.eqb (k mod period) (v mod period)) values.
+
+Definition lookup_row (table : list (string * Z * list string)) (name : string) (v : Z) : list string :=
+  match find (fun e => let '(n, k', _) := e in String.eqb n name && Z.eqb k' v) table with
+  | Some (_, _, names) => names
+  | None => []
+  end.
+
+Definition decompose_nz (values : list Z) (table : list (string * Z * list string)) (period : Z)
+           (name : string) (k : Z) : option (list string) :=
+  match select_value values period k with
+  | Some v => Some (lookup_row table name v)
+  | None => None
+  end.
+
+Definition decompose_rot (values : list Z) (table : list (string * Z * list string)) (period step : Z)
+           (name : string) (k : Z) : option (list string) :=
+  if negb (Z.eqb (k mod step) 0) then None
+  else if Z.eqb k 0 then Some []
+  else decompose_nz values table period name k.
+
+Definition rotation_names : list string := ["RX"; "RY"; "RZ"; "PHASE"].
+
+(* decomposition of `name` at angle k is the rotation up to a global phase *)
+Definition decomp_ok (names : list string) (name : string) (k : Z) : bool :=
+  match rot_mat name k, seq_mat names (mid CycS) with
+  | Some u, Some v => mat_prop u v
+  | _, _ => false
+  end.
+
+(* the finite obligation behind the theorem for every k: residues r of k modulo the period that are
+   Clifford, each paired with the two residues of k modulo 4*pi (32 units) compatible with r *)
+Definition selection_ok (values : list Z) (table : list (string * Z * list string)) (period step : Z) : bool :=
+  Z.eqb period 16 && Z.eqb step 4 &&
+  forallb (fun name => forallb (fun r =>
+      match decompose_nz values table period name r with
+      | Some names => decomp_ok names name r && decomp_ok names name (r + 16)
+      | None => false
+      end) [0; 4; 8; 12]%Z) rotation_names.
